@@ -554,6 +554,12 @@ pub fn lock_envs(c: &Case, rng: &mut Rng) -> Vec<TxEnv> {
     let l = pick(&c.abs, rng);
     let s = pick(&c.rel, rng);
     v.push(TxEnv { lock_time: l.filter(|x| *x > 0), sequence: s.filter(|x| *x > 0) });
+    // seeded change C01-9: an nSequence with the BIP68 disable flag meets no relative lock, whatever
+    // its low bits say (the caller hands such a Sequence to the library's own Satisfier impl)
+    if let Some(r) = maxrel_h.or(maxrel_t) {
+        v.push(TxEnv { lock_time: None, sequence: Some(0x8000_0000 | r) });
+        v.push(TxEnv { lock_time: None, sequence: Some(if r & 1 == 0 { 0xffff_fffe } else { 0xffff_ffff }) });
+    }
     v
 }
 
